@@ -250,6 +250,13 @@ func runC04(w *fw.Worker) {
 		use := []pt.Stmt{pt.TypedDecl{Name: "t", T: T}, pt.Assign{Target: pt.V("t"), X: pt.V("b")}, typeofPrint(pt.V("t"))}
 		emit("bound", "loopvar-over-literal", true, pt.For{Var: "b", Range: []pt.Expr{pt.A(pt.A(pt.N(1)), pt.A(pt.N(2)))}, Body: use})
 		emit("bound", "loopvar-over-variable", true, pt.InferDecl{Name: "xs", X: pt.A(pt.A(pt.N(1)), pt.A(pt.N(2)))}, pt.For{Var: "b", Range: []pt.Expr{pt.V("xs")}, Body: use})
+		// the elements of an untyped nested empty literal: the loop variable has the inferred element type ([]any / {}any), fixed
+		emit("bound", "loopvar-over-nested-empty", true, pt.For{Var: "b", Range: []pt.Expr{pt.A(pt.A())}, Body: use})
+		emit("bound", "loopvar-over-nested-empty-map", true, pt.For{Var: "b", Range: []pt.Expr{pt.A(pt.M())}, Body: use})
+		emit("bound", "loopvar-over-nested-empty-deep", true, pt.For{Var: "b", Range: []pt.Expr{pt.A(pt.A(pt.A()))}, Body: use})
+		emit("bound", "loopvar-over-nested-empty-repeated", true, pt.For{Var: "b", Range: []pt.Expr{pt.Bin("*", pt.A(pt.A()), pt.N(2))}, Body: use})
+		emit("bound", "loopvar-over-nested-empty-used", true, pt.For{Var: "b", Range: []pt.Expr{pt.A(pt.A())}, Body: append(append([]pt.Stmt(nil), use...),
+			pt.Print(pt.Bin("==", pt.V("b"), pt.A(pt.N(1)))), pt.InferDecl{Name: "y", X: pt.V("b")}, pt.Print(pt.C("typeof", pt.V("y"))))})
 		emit("bound", "loopvar-over-map-literal", true, pt.For{Var: "b", Range: []pt.Expr{pt.M("k", pt.N(1))}, Body: use})
 		emit("bound", "loopvar-over-num-literals", true, pt.For{Var: "b", Range: []pt.Expr{pt.A(pt.N(1), pt.N(2))}, Body: use})
 		emit("bound", "param", true, pt.Func{Name: "f", Params: []pt.Param{{Name: "b", T: tNumArr}}, Body: use}, pt.CallStmt{C: pt.C("f", pt.A(pt.N(1)))})
@@ -347,6 +354,9 @@ func indexByte(s string, b byte) int {
 }
 
 // checkC04 judges one cell.
+// c04ManyErrors is a prefix of 70 lines with one parse error each.
+var c04ManyErrors = strings.Repeat(")\n", 70)
+
 func checkC04(w *fw.Worker, sub, src string, prog *pt.Prog) *fw.Violation {
 	in := DiffInput{Src: src}
 	err := ref.Check(prog)
@@ -359,6 +369,14 @@ func checkC04(w *fw.Worker, sub, src string, prog *pt.Prog) *fw.Violation {
 			w.Count(k, 1)
 		}
 	}
+	// the same program behind many earlier errors: the verdict of the type checker on this program must not depend on how many
+	// errors were reported before it (nothing may be skipped or assumed once a list is long) - here: still no crash, still rejected
+	if ps2, _, gp2 := run.Parse(c04ManyErrors + src); gp2 != "" {
+		return &fw.Violation{Sub: sub, Signature: "gopanic-after-many-errors:" + run.PanicSite(gp2) + ":" + sub, What: "parser panicked on this program when 70 erroneous lines precede it", Input: DiffInput{Src: c04ManyErrors + src}, Observed: gp2}
+	} else if ps2 != nil {
+		return &fw.Violation{Sub: sub, Signature: "accepted-after-many-errors:" + sub, What: "a source with 70 erroneous lines was accepted", Input: DiffInput{Src: c04ManyErrors + src}, Expected: "rejected", Observed: "accepted"}
+	}
+	count("after-many-errors")
 	switch e := err.(type) {
 	case nil:
 		count("ref-accept")
